@@ -10,7 +10,11 @@ Inductive obs15 :=
 (* a reported defaultValue text and what the implementation's parse_value
    makes of it (None: syntax error): ties the Spec's reader [parse_lit] to
    the real parser on the texts introspection emits *)
-| OParse (text : str) (parsed : option lit).
+| OParse (text : str) (parsed : option lit)
+(* a declared default at a position of type t, and whether the implementation's
+   reported defaultValue parsed back to it (parse_value + value_from_ast):
+   wherever the guard of C15_exact_partial accepts, it must have *)
+| OGuard (t : iref) (v : pv) (parsed_back : bool).
 
 Fixpoint lit_eqb (a b : lit) : bool :=
   match a, b with
@@ -49,12 +53,14 @@ Definition model_obs (sc : ischema pv) (o : obs15) : option pv :=
   | OType fl n _ => Some (type_query_model sc fl n)
   | OProbe dis mut root sels _ => probe_model big_fuel dis mut sc root sels
   | OParse _ _ => None
+  | OGuard _ _ _ => None
   end.
 
 Definition obs_data (o : obs15) : pv :=
   match o with
   | OIntro _ d => d | OIntroDisabled d => d | OType _ _ d => d | OProbe _ _ _ _ d => d
   | OParse _ _ => PNone
+  | OGuard _ _ _ => PNone
   end.
 
 Definition agree_obs (sc : ischema pv) (o : obs15) : bool :=
@@ -65,6 +71,7 @@ Definition agree_obs (sc : ischema pv) (o : obs15) : bool :=
       | None, None => true
       | _, _ => false
       end
+  | OGuard t v ok => implb (default_okb (s_types sc) t v) ok
   | _ => opt_pv_eqb (model_obs sc o) (obs_data o)
   end.
 
